@@ -101,8 +101,8 @@ CHECKS["C11"] = ("exploration", "DESIGN.md §6, §7 C11",
     "kwargs-style and call-style construction give equal trees; a parsed-from-text population covers variants.",
     "No clock/network/storage is involved (weakest fit to the technique: the nondeterminism is the caller's operation order); string escaping (C12) is kept out of the domain.")
 CHECKS["C14"] = ("exploration", "DESIGN.md §6, §7 C14",
-    "history simulation of one shared object: all ordered pairs of 22 use kinds plus seeded histories vs a never-used twin and a fresh twin per operation; also an invariant in every World S session",
-    "All ordered pairs (thorough: triples) of the 22 kinds of use of one BeaconConfig and seeded histories up to 24 operations "
+    "history simulation of one shared object: all ordered pairs of 24 use kinds plus seeded histories vs a never-used twin and a fresh twin per operation; also an invariant in every World S session",
+    "All ordered pairs (thorough: triples) of the 24 kinds of use of one BeaconConfig and seeded histories up to 24 operations "
     "on generated and real configurations: after every operation a deep snapshot equals a never-used twin's and the "
     "operation's result equals the same operation on a brand-new configuration; mapping mutation raises TypeError.",
     "Results are compared after canonicalisation; PRNG seams reseeded identically for both executions.")
